@@ -15,6 +15,10 @@ pub trait DModel: Encode + Decode + Clone + PartialEq + std::fmt::Debug {
     /// ALL fields, in declaration order
     fn to_val_all(&self) -> String;
     fn gen(g: &mut crate::rng::Rng, size: usize) -> Self;
+    /// containers: the bytes a hand-driven `SszEncoder` produces from the same live fields (after a two-byte prefix)
+    fn manual(&self) -> Option<Vec<u8>> {
+        None
+    }
 }
 
 pub fn run_derive<D: DModel>(ctx: &mut Ctx) {
@@ -41,6 +45,7 @@ pub fn run_derive<D: DModel>(ctx: &mut Ctx) {
         if !seen_v.insert(val.clone()) {
             continue;
         }
+        crate::codec::abandon_encoder(i);
         let bytes = match catch_unwind(AssertUnwindSafe(|| v.as_ssz_bytes())) {
             Ok(b) => b,
             Err(_) => {
@@ -68,6 +73,13 @@ pub fn run_derive<D: DModel>(ctx: &mut Ctx) {
         let mut buf = vec![0xAB];
         v.ssz_append(&mut buf);
         ctx.out.r("C10", "derive", buf[0] == 0xAB && buf[1..] == bytes[..], &["append_prefix", "denc", &d, &val, name]);
+        if let Ok(Some(man)) = catch_unwind(AssertUnwindSafe(|| v.manual())) {
+            ctx.out.r("C10", "derive", man == bytes, &["manual_encoder_with_the_same_fields", "denc", &d, &val, name]);
+        }
+        ctx.out.r("C10", "derive", ssz::ssz_encode(&v) == bytes && (&v).as_ssz_bytes() == bytes && std::sync::Arc::new(v.clone()).as_ssz_bytes() == bytes, &["entry_points_agree", "denc", &d, &val, name]);
+        if d.contains("LO(") {
+            ctx.out.r("C17", "derive", v.ssz_bytes_len() == bytes.len(), &["legacy_field_exact_size", "denc", &d, &val, name]);
+        }
         if D::symmetric() {
             // round trip up to the skipped fields: decoding succeeds and re-encodes to the same bytes
             let back = catch_unwind(AssertUnwindSafe(|| D::from_ssz_bytes(&bytes)));
@@ -221,4 +233,85 @@ ssz::four_byte_option_impl!(sa_leg_vec_u16, VecU16);
 pub fn run_legacy(ctx: &mut Ctx) {
     legacy_case!(ctx, self::sa_leg_u16, u16, "LO(U2)");
     legacy_case!(ctx, self::sa_leg_vec_u16, Vec<u16>, "LO(L(U2))");
+    // the public selector helpers of the legacy module: the 32-bit little-endian word
+    let mut ns: Vec<usize> = vec![0, 1, 2, 3, 127, 128, 255, 256, 257, 65535, 65536, 65537, (1 << 24) - 1, 1 << 24, (1 << 24) + 1, u32::MAX as usize - 1, u32::MAX as usize];
+    for _ in 0..200 {
+        ns.push(ctx.rng.next() as u32 as usize);
+    }
+    for n in ns {
+        let r = catch_unwind(|| ssz::legacy::encode_four_byte_union_selector(n));
+        let le = (n as u32).to_le_bytes();
+        ctx.out.r("C17", "legacy", matches!(&r, Ok(b) if *b == le), &["selector_is_32_bit_little_endian", "legacy-selector", &n.to_string()]);
+        let back = catch_unwind(|| ssz::legacy::read_four_byte_union_selector(&le));
+        ctx.out.r("C17", "legacy", matches!(&back, Ok(Ok(m)) if *m == n), &["selector_read_back", "legacy-selector", &n.to_string()]);
+    }
+    for b in [vec![], vec![0u8], vec![1, 0], vec![1, 0, 0], vec![1, 0, 0, 0, 0], vec![1, 0, 0, 0, 9, 9]] {
+        let r = catch_unwind(|| ssz::legacy::read_four_byte_union_selector(&b));
+        let want_ok = b.len() >= 4;
+        ctx.out.r("C17", "legacy", matches!(&r, Ok(x) if x.is_ok() == want_ok && (!want_ok || *x == Ok(1))), &["selector_needs_four_bytes", "legacy-selector", &crate::model::hex(&b)]);
+    }
+}
+
+
+// definitions that can only derive `Encode` (borrowed fields, a lifetime parameter, a where clause): their encoding
+// must be the one of the owned twin, whose codec the model covers
+#[derive(ssz_derive::Encode)]
+pub struct BorrowedS<'a, T: Encode> where T: Clone { pub a: &'a u16, pub v: &'a Vec<T>, pub w: &'a [u8; 2], pub o: Option<&'a u8> }
+#[derive(ssz_derive::Encode, ssz_derive::Decode, Clone, PartialEq, Debug)]
+pub struct OwnedS<T: Encode + Decode> { pub a: u16, pub v: Vec<T>, pub w: [u8; 2], pub o: Option<u8> }
+#[derive(ssz_derive::Encode)]
+#[ssz(enum_behaviour = "union")]
+pub enum BorrowedU<'a> { A(&'a u8), B(&'a Vec<u16>), C(&'a BorrowedS<'a, u8>) }
+#[derive(ssz_derive::Encode)]
+#[ssz(enum_behaviour = "transparent")]
+pub enum BorrowedT<'a> { A(&'a Vec<u8>), B(&'a Vec<u16>) }
+#[derive(ssz_derive::Encode)]
+#[ssz(struct_behaviour = "transparent")]
+pub struct BorrowedW<'a>(pub &'a Vec<u16>);
+
+pub fn run_derive_borrowed(ctx: &mut Ctx) {
+    let mut g = crate::rng::Rng::new(ctx.seed ^ 0xb0440);
+    for case in 0..(if ctx.thorough { 300 } else { 50 }) {
+        let size = case % 4;
+        let a = u16::gen(&mut g, size);
+        let v8 = Vec::<u8>::gen(&mut g, size);
+        let v16 = Vec::<u16>::gen(&mut g, size);
+        let w = <[u8; 2]>::gen(&mut g, size);
+        let o = Option::<u8>::gen(&mut g, size);
+        let tag = case.to_string();
+        let b = BorrowedS { a: &a, v: &v8, w: &w, o: o.as_ref() };
+        let own = OwnedS { a, v: v8.clone(), w, o };
+        let same = |x: &dyn Fn() -> (Vec<u8>, usize), y: &dyn Fn() -> (Vec<u8>, usize)| -> bool {
+            match (catch_unwind(AssertUnwindSafe(x)), catch_unwind(AssertUnwindSafe(y))) {
+                (Ok((e1, l1)), Ok((e2, l2))) => e1 == e2 && l1 == e1.len() && l2 == e2.len(),
+                _ => false,
+            }
+        };
+        let ok = same(&|| (b.as_ssz_bytes(), b.ssz_bytes_len()), &|| (own.as_ssz_bytes(), own.ssz_bytes_len()))
+            && <BorrowedS<u8> as Encode>::is_ssz_fixed_len() == <OwnedS<u8> as Encode>::is_ssz_fixed_len()
+            && <BorrowedS<u8> as Encode>::ssz_fixed_len() == <OwnedS<u8> as Encode>::ssz_fixed_len();
+        ctx.out.r("C08", "derive", ok, &["borrowed_container_encodes_as_owned", "derive-borrowed", &tag]);
+        ctx.out.r("C10", "derive", ok, &["borrowed_container_encodes_as_owned", "derive-borrowed", &tag]);
+        // and the owned twin is an ordinary container the tuple codec agrees with
+        let tup = (a, v8.clone(), w, o);
+        ctx.out.r("C08", "derive", own.as_ssz_bytes() == tup.as_ssz_bytes() && OwnedS::<u8>::from_ssz_bytes(&tup.as_ssz_bytes()).ok() == Some(own.clone()), &["owned_container_encodes_as_tuple", "derive-borrowed", &tag]);
+        let b16 = BorrowedS { a: &a, v: &v16, w: &w, o: o.as_ref() };
+        let tup16 = (a, v16.clone(), w, o);
+        ctx.out.r("C08", "derive", same(&|| (b16.as_ssz_bytes(), b16.ssz_bytes_len()), &|| (tup16.as_ssz_bytes(), tup16.ssz_bytes_len())), &["borrowed_container_second_instantiation", "derive-borrowed", &tag]);
+        let x8 = u8::gen(&mut g, size);
+        for (k, u) in [BorrowedU::A(&x8), BorrowedU::B(&v16), BorrowedU::C(&b)].iter().enumerate() {
+            let inner: Vec<u8> = match k { 0 => x8.as_ssz_bytes(), 1 => v16.as_ssz_bytes(), _ => own.as_ssz_bytes() };
+            let mut want = vec![k as u8];
+            want.extend_from_slice(&inner);
+            let got = catch_unwind(AssertUnwindSafe(|| (u.as_ssz_bytes(), u.ssz_bytes_len())));
+            let ok = matches!(&got, Ok((e, l)) if *e == want && *l == want.len());
+            ctx.out.r("C08", "derive", ok, &["borrowed_union_selector_and_body", "derive-borrowed", &tag, &k.to_string()]);
+            ctx.out.r("C15", "derive", ok, &["borrowed_union_selector_and_body", "derive-borrowed", &tag, &k.to_string()]);
+        }
+        let t1 = BorrowedT::A(&v8);
+        let t2 = BorrowedT::B(&v16);
+        ctx.out.r("C08", "derive", t1.as_ssz_bytes() == v8.as_ssz_bytes() && t2.as_ssz_bytes() == v16.as_ssz_bytes() && t1.ssz_bytes_len() == v8.ssz_bytes_len() && t2.ssz_bytes_len() == v16.ssz_bytes_len(), &["borrowed_transparent_enum_is_inner", "derive-borrowed", &tag]);
+        let wv = BorrowedW(&v16);
+        ctx.out.r("C08", "derive", wv.as_ssz_bytes() == v16.as_ssz_bytes() && wv.ssz_bytes_len() == v16.ssz_bytes_len() && !<BorrowedW as Encode>::is_ssz_fixed_len(), &["borrowed_transparent_struct_is_inner", "derive-borrowed", &tag]);
+    }
 }
